@@ -87,7 +87,7 @@ func (d *Decoder) Decode(pkt *rtp.Packet) ([][]byte, error) {
 			// AUs
 			aus = make([][]byte, len(dataLens))
 			for i, dataLen := range dataLens {
-				if len(payload) < int(dataLen) {
+				if uint64(len(payload)) < dataLen {
 					return nil, fmt.Errorf("payload is too short")
 				}
 
@@ -99,7 +99,7 @@ func (d *Decoder) Decode(pkt *rtp.Packet) ([][]byte, error) {
 				return nil, fmt.Errorf("a fragmented packet can only contain one AU")
 			}
 
-			if len(payload) < int(dataLens[0]) {
+			if uint64(len(payload)) < dataLens[0] {
 				return nil, fmt.Errorf("payload is too short")
 			}
 
@@ -115,7 +115,7 @@ func (d *Decoder) Decode(pkt *rtp.Packet) ([][]byte, error) {
 			return nil, fmt.Errorf("a fragmented packet can only contain one AU")
 		}
 
-		if len(payload) < int(dataLens[0]) {
+		if uint64(len(payload)) < dataLens[0] {
 			d.resetFragments()
 			return nil, fmt.Errorf("payload is too short")
 		}
